@@ -223,12 +223,6 @@ def parseRowsOut (out : List String) : Option (List Row) :=
   | "rows" :: _ :: "|" :: rest => (splitBar [] [] rest).mapM parseAllValues
   | _ => none
 
-/-- some block of the query has `LIMIT 0` (the engine then does not run what is below it; whether an error
-    below must still be reported is not C03's business) -/
-def hasLimit0 : GQuery → Bool
-  | .group _ g => isLimit0 g.limit
-  | .sel src b => isLimit0 b.limit || hasLimit0 src
-
 def judge (toks : List String) (out : List String) : String :=
   match toks with
   | "res" :: _ => "ok"
@@ -241,7 +235,7 @@ def judge (toks : List String) (out : List String) : String :=
     else
     match specTop (tableTys op.ncols op.table) op.query op.table with
     | none => if out == ["err"] then "ok"
-              else if hasLimit0 op.query && out == ["rows", "0"] then "ok limit-0-skips-the-error"
+              else if op.query.hasLimit0 && out == ["rows", "0"] then "ok limit-0-skips-the-error"
               else "bad expected-error"
     | some (mid, b, amb) =>
       match specCore b mid with
